@@ -69,14 +69,19 @@ def flow_control(flag: int, bs: int, stmin: int, pad_to: int = 0, pad_byte: int 
 
 # --------------------------------------------------------------------------- text rendering
 def render_line(can_id: int, data: bytes, fmt: str, t: float, style: int = 0) -> str:
-    """candump renderings. fmt: n = `candump can0` console format, l = `candump -l` log
-    format, f = log format for CAN FD frames (##<flags>)."""
+    """candump renderings. fmt: n = `candump can0` console format (style bit 4: with the
+    ASCII column of `candump -a`), l = `candump -l` log format, f = log format for CAN FD
+    frames (##<flags>)."""
     if fmt == "n":
         ident = f"{can_id:03X}" if can_id <= 0x7FF else f"{can_id:08X}"
         body = " ".join(f"{b:02X}" for b in data)
         lead = ("  ", " ", "", "  ")[style % 4]
         iface = ("can0", "vcan0", "can-fd0", "slcan0", "can1", "mcp-can_2", "can0", "vcan_diag")[style % 8]
-        return f"{lead}{iface}  {ident}   [{len(data)}]  {body}"
+        line = f"{lead}{iface}  {ident}   [{len(data)}]  {body}"
+        if style & 16 and len(data) > 0:
+            # `candump -a`: an ASCII column follows the data bytes
+            line += "   '" + "".join(chr(b) if 0x20 < b < 0x7F else "." for b in data) + "'"
+        return line
     ident = f"{can_id:03X}" if can_id <= 0x7FF else f"{can_id:08X}"
     hexdata = data.hex().upper() if style % 2 == 0 else data.hex()
     iface = ("can0", "vcan0", "can-fd0", "mcp-can_2")[style % 4]
